@@ -245,8 +245,11 @@ TakeCtx ==
 \* loop iteration without any other step of this call in between, so they are
 \* one action here.  clevel' is the level just reached in that case.
 
-Internal == Start \/ SkipNode \/ EnqueueNode \/ IssueDone \/ TakeCtx
-            \/ \E n \in Node : TakeRpc(n) \/ TakeConfirm(n) \/ TakeErr(n) \/ TakeOk(n) \/ Confirm(n)
+\* the steps of the call's own goroutine(s) ...
+CallerInternal == Start \/ SkipNode \/ EnqueueNode \/ IssueDone \/ TakeCtx
+                  \/ \E n \in Node : TakeRpc(n) \/ TakeConfirm(n) \/ TakeErr(n) \/ TakeOk(n)
+\* ... and, for send-waiting one-way calls, the per-node senders' confirmations
+Internal == CallerInternal \/ \E n \in Node : Confirm(n)
 
 Env(Vals) == \/ \E n \in Node, v \in Vals : NodeRespond(n, FALSE, v)
              \/ \E n \in Node : NodeRespond(n, TRUE, 0) \/ StreamEnd(n)
